@@ -173,6 +173,12 @@ func genC10(t *rapid.T) CaseC10 {
 			c.Key = rapid.SampledFrom(shapeKeys).Draw(t, "ukey")
 		}
 	}
+	if rapid.IntRange(0, 7).Draw(t, "wrapdeep") == 0 && len(c.Steps) > 0 {
+		var pre []Step
+		c.Map, pre = wrapDeepPrefix(t, c.Map)
+		c.Steps = append(stepNames(pre), c.Steps...)
+		c.Src += "+deep"
+	}
 	if rapid.Bool().Draw(t, "withconds") {
 		// conditions drawn from the maps the path yields
 		var st []Step
@@ -563,7 +569,10 @@ func checkC10on(c CaseC10, subject map[string]interface{}, sep, path string, sp 
 				if xm, derr := mxj.NewMapXml(xb); derr == nil {
 					xout, uerr := x2j.XmlUpdateValsForPath(xb, map[string]interface{}{c.Key: "NEWVAL"}, path, sp...)
 					_, cerr := xm.UpdateValuesForPath(map[string]interface{}{c.Key: "NEWVAL"}, path, sp...)
-					want, _ := xm.Xml()
+					want, encErr := xm.Xml()
+					if cerr == nil {
+						cerr = encErr // the wrapper is decode, update, encode: an error of the last step is the composition's error too
+					}
 					// the returned document must stand for the Map the core call leaves (C10 speaks about the Map; that the
 					// wrapper's text is the core encoder's text is C20's clause, checked there byte for byte)
 					same := (uerr == nil) == (cerr == nil)
